@@ -39,7 +39,11 @@ CONSTANTS Family,          \* "slant" | "grid"
           Scales,          \* LINE_SCALE numerators over 10 (8 = 0.8, 10 = 1, 15 = 1.5)
           PageH, PageW,    \* page size
           Kinds,           \* page contents: "smooth" (slant family), "rows", "cols" (grid family)
-          Shifts           \* grid family: content offsets sx = sy (0 = base page)
+          Shifts,          \* grid family: content offsets sx = sy (0 = base page)
+          Env              \* "default" | "strict": numeric environment of the hosting process.  "strict" = the lines of the space are
+                           \* cropped while numpy raises on floating-point errors (np.seterr(all = "raise")) or warnings are errors; the
+                           \* skeleton is the same (the fallback of crop() is unconditional: "never to an error"), but only the
+                           \* FALLBACK clause is claimed there, so a strict space may hold degenerate lines only (StrictScope)
 
 VARIABLES pts,     \* baseline: sequence of <<x, y>>
           asc, desc,
@@ -194,6 +198,8 @@ Spec == Init /\ [][Next]_vars
 \* ======================================== properties ================================================
 \* C10: only a degenerate line falls back to a blank image
 BlankOnlyDegenerate == kind = "blank" => Degenerate
+\* scope of the strict-environment spaces: only degenerate lines (the fallback clause); a violation is a mistake in the bounds
+StrictScope == Env = "strict" => Degenerate
 \* C10: exactly the configured height, on every path
 HeightConfigured == pc = "done" => ch = H
 \* C10: width = baseline length * target height / scaled line height (Appendix D tolerance)
